@@ -117,3 +117,43 @@ Example docstring_example :
 Proof. repeat split; try reflexivity. repeat constructor; lia. Qed.
 Example zero_width : read_as_bytes {| cdata := [53; 202]; cpos := 16 |} 0 = Ok ([], {| cdata := [53; 202]; cpos := 16 |}).
 Proof. reflexivity. Qed.
+
+(* ---- consecutive reads compose (C03_reads_compose) ---- *)
+Lemma firstn_add_split {A} (a b : nat) : forall l : list A,
+  firstn (a + b) l = firstn a l ++ firstn b (skipn a l).
+Proof. induction a as [|a IH]; intros [|x l]; cbn; try reflexivity.
+  - now rewrite firstn_nil.
+  - now rewrite IH. Qed.
+
+Lemma skipn_add {A} (a b : nat) : forall l : list A, skipn (a + b) l = skipn b (skipn a l).
+Proof. induction a as [|a IH]; intros [|x l]; cbn; try reflexivity.
+  - now rewrite skipn_nil.
+  - apply IH. Qed.
+
+(* two consecutive reads see the bits one read of the joint width sees *)
+Lemma spec_int_split B p n m : wf B -> 0 <= p -> 0 <= n -> 0 <= m -> p + n + m <= 8 * zlen B ->
+  spec_int B p (n + m) = spec_int B p n * 2 ^ m + spec_int B (p + n) m.
+Proof.
+  intros Hwf Hp Hn Hm Hin. unfold spec_int.
+  rewrite (Z2Nat.inj_add n m), (Z2Nat.inj_add p n) by lia.
+  rewrite firstn_add_split, val_of_bits_app, skipn_add.
+  f_equal. f_equal. unfold zlen. rewrite firstn_length, !skipn_length, bits_of_bytes_length.
+  unfold zlen in Hin. f_equal. lia.
+Qed.
+
+Theorem reads_compose B p n m : wf B -> 0 <= p -> 0 <= n -> 0 <= m -> p + n + m <= 8 * zlen B ->
+  exists v1 v2 c1,
+    read_as_int {| cdata := B; cpos := p |} n = Ok (v1, c1) /\
+    read_as_int c1 m = Ok (v2, {| cdata := B; cpos := p + n + m |}) /\
+    read_as_int {| cdata := B; cpos := p |} (n + m) = Ok (v1 * 2 ^ m + v2, {| cdata := B; cpos := p + n + m |}).
+Proof.
+  intros Hwf Hp Hn Hm Hin.
+  exists (spec_int B p n), (spec_int B (p + n) m), {| cdata := B; cpos := p + n |}.
+  split; [apply read_int_spec; lia || assumption|].
+  split; [apply read_int_spec; lia || assumption|].
+  rewrite read_int_spec by (lia || assumption).
+  rewrite spec_int_split by (lia || assumption). now rewrite Z.add_assoc.
+Qed.
+Example reads_compose_nonvacuous :
+  read_as_int {| cdata := [0xAB; 0xCD]; cpos := 3 |} 9 = Ok (0xBC, {| cdata := [0xAB; 0xCD]; cpos := 12 |}).
+Proof. vm_compute. reflexivity. Qed.
